@@ -156,10 +156,20 @@ fn corpus() -> Vec<Edge> {
         edge("unknown-simple-type", "#[typeshare]\npub struct A { pub a: Foreign, pub b: Option<some::path::Foreign> }\n#[typeshare]\npub type B = Foreign;\n#[typeshare]\n#[serde(tag = \"t\", content = \"c\")]\npub enum E { V(Foreign), W { f: Foreign } }\n"),
         edge("renamed-tagged-enum-self-reference", "#[typeshare]\n#[serde(rename = \"NodeV2\", tag = \"t\", content = \"c\")]\npub enum Node { Leaf(u8), Pair(Box<Node>), Many { kids: Vec<Node> } }\n#[typeshare]\npub struct Holder { pub n: Node }\n"),
         edge("renamed-everything-cycle", "#[typeshare]\n#[serde(rename = \"AA\")]\npub struct A { pub b: Option<Box<B>> }\n#[typeshare]\n#[serde(rename = \"BB\")]\npub struct B { pub a: Vec<A>, pub c: C }\n#[typeshare]\n#[serde(rename = \"CC\")]\npub type C = Vec<A>;\n"),
+        // attribute shapes the coverage run showed no workload reached
+        edge("decorator-nested-list", "#[typeshare]\npub struct A { #[typeshare(typescript(nested(list), type = \"x\"))] pub a: u8, #[typeshare(kotlin(a(b(c))))] pub b: u8 }\n"),
+        edge("decorator-value-not-a-literal", "#[typeshare]\npub struct A { #[typeshare(typescript(type = SOME_CONST))] pub a: u8, #[typeshare(swift(type = 5))] pub b: u8 }\n"),
+        edge("doc-attribute-macro-value", "#[typeshare]\n#[doc = include_str!(\"../README.md\")]\n#[doc = concat!(\"a\", \"b\")]\npub struct A { #[doc = stringify!(x)] pub a: u8 }\n"),
+        edge("serde-rename-not-a-literal", "#[typeshare]\n#[serde(rename = RENAMED)]\npub struct A { #[serde(rename = 5)] pub a: u8 }\n"),
+        edge("lifetimes-and-const-generics", "#[typeshare]\npub struct A<'a, T, const N: usize> { pub a: &'a str, pub b: T, pub c: [u8; N] }\n#[typeshare]\n#[serde(tag = \"t\", content = \"c\")]\npub enum E<'a, 'b: 'a, T> { V(&'a str), W { x: &'b T } }\n#[typeshare]\npub type L<'a> = &'a str;\n"),
+        edge("where-clauses-and-bounds", "#[typeshare]\npub struct A<T: Clone + Send, U = String> where U: Default { pub a: T, pub b: U }\n"),
         edge("macro-rules-with-attr", "macro_rules! m { () => { #[typeshare] pub struct InMacro { pub a: u8 } } }\nm!();\n#[typeshare]\npub struct A { pub a: u8 }\n"),
     ];
     // bare `use` of a crate name and odd use trees (multi-file import collection)
     let mut e = edge("use-bare-crate", "use some_crate;\nuse another as alias;\nuse ::leading::Thing;\nuse {a::B, c::*};\n#[typeshare]\npub struct A { pub a: u8, pub b: some_crate::Thing }\n");
+    e.extra.push(SrcFile { path: "other/src/lib.rs".into(), source: "#[typeshare]\npub struct Thing { pub x: u8 }\n".into() });
+    v.push(e);
+    let mut e = edge("use-renamed-and-glob-forms", "use other::Thing as Renamed;\nuse other::{Thing as Again, self as o};\nuse *;\nuse ::*;\nuse crate::*;\nuse super::super::*;\n#[typeshare]\npub struct A { pub a: Renamed, pub b: Again, pub c: o::Thing }\n");
     e.extra.push(SrcFile { path: "other/src/lib.rs".into(), source: "#[typeshare]\npub struct Thing { pub x: u8 }\n".into() });
     v.push(e);
     let mut e = edge("use-self-super-crate-only", "use self;\nuse super::*;\nuse crate::{self, Thing};\n#[typeshare]\npub struct A { pub a: Thing }\n");
